@@ -111,6 +111,7 @@ N4_RE = re.compile(r"^(\s*(?:pub(?:\([a-z]+\))?\s+)?const\s+\w+\s*:\s*)&(?!'stat
 N3_RE = re.compile(r'^(\s*)([\w.]+)\.clone_from\(&([\w.]+)\);\s*$')
 N5_RE = re.compile(r'^(\s*)let _ = (\w+)\.join\(\);\s*$')
 N6_RE = re.compile(r'\(\|_\|')
+N7_RE = re.compile(r'\bIpv([46])Addr::UNSPECIFIED\b')
 
 
 # N2: lambda lifting of the one closure that captures `&mut self` (Verus has no such closures).  The closure
@@ -195,6 +196,10 @@ def normalise(fname, text):
         if m:
             new = '%scrate::verif_spec::join_and_ignore(%s);' % (m.group(1), m.group(2))
             notes.append({'file': fname, 'line': n, 'rule': 'N5 `let _ = h.join();` moved into a one-line trusted helper (Verus cannot type Box<dyn Any + Send>)', 'from': line.strip(), 'to': new.strip()})
+            line = new
+        if N7_RE.search(line) and fname == 'client.rs':
+            new = N7_RE.sub(lambda m: 'crate::verif_spec::ipv%s_unspecified()' % m.group(1), line)
+            notes.append({'file': fname, 'line': n, 'rule': 'N7 associated constant of an external type read through a one-line trusted helper (Verus cannot specify such constants)', 'from': line.strip(), 'to': new.strip()})
             line = new
         if N6_RE.search(line):
             new = N6_RE.sub('(|_verif_ignored|', line)
